@@ -31,11 +31,8 @@ Definition EDuplicatedKey : N := 17.
 (* store limits and mode *)
 Record cfg := { c_ext : bool;            (* useExternalCommitAllowance (sync replication) *)
                 c_maxActive : N;         (* MaxActiveTransactions (= size of the precommit buffer) *)
-                c_maxKeyLen : N; c_maxValueLen : N; c_maxTxEntries : N;
-                (* Options.EmbeddedValues: values live in the tx log, each record is preceded by
-                   (total length, values); the reload loop of OpenWith does not skip that prefix and
-                   takes no precommitted record back *)
-                c_embedded : bool }.
+                c_maxKeyLen : N; c_maxValueLen : N; c_maxTxEntries : N }.
+
 
 (* an entry as recorded by precommit: key, metadata, value hash, and the value unless the
    exporting side had truncated it (then Value = nil, vLen = 0, hVal = the carried digest) *)
@@ -280,7 +277,7 @@ Fixpoint grow_cap (fuel : nat) (m n : N) : N :=
   end.
 
 Definition restart (c : cfg) (st : store) : store :=
-  let back := if c_embedded c then [] else reload (com_id st) (com_alh st) (physical st) in
+  let back := reload (com_id st) (com_alh st) (physical st) in
   may_commit c {| s_com := s_com st; s_tail := map (fun r => (r, true)) back; s_allowed := com_id st;
                   s_ghost := skipn (length back) (physical st);
                   s_cap := grow_cap (S (length back)) (c_maxActive c) (lenN back) |}.
